@@ -582,7 +582,7 @@ func (l *Line) IPArray(name string, value []net.IP) *Line {
 	}
 
 	for _, v := range value {
-		if l.index+39+2 > cap(l.buffer) { // longest IP text is 8*4+7 plus the separator
+		if l.index+40+2 > cap(l.buffer) { // appendIP6 needs room for 8 groups of "xxxx:" plus the separator
 			break
 		}
 		if v != nil {
